@@ -7,6 +7,8 @@ import AlatorVerif.Driver.Strat
 import AlatorVerif.Driver.Http
 import AlatorVerif.Driver.Srv
 import AlatorVerif.Driver.Cost
+import AlatorVerif.DriverX.Broker
+import AlatorVerif.DriverX.Cost
 
 /-- one executable, one sub-command per modelled component; each reads the line protocol on stdin -/
 def main (args : List String) : IO UInt32 := do
@@ -20,6 +22,10 @@ def main (args : List String) : IO UInt32 := do
   | "sched" :: r => Drv.Sched.main r; return 0
   | "strat" :: r => Drv.Strat.main r; return 0
   | "cost" :: _ => Drv.Cost.main; return 0
+  -- the same drivers at carrier `Rat` (exact arithmetic: an instance of the theorems' ordered-field hypotheses)
+  | "uist-exact" :: _ => DrvX.Uist.main Rat; return 0
+  | "cost-exact" :: _ => DrvX.Cost.main Rat; return 0
+  | "broker-exact" :: r => DrvX.Broker.main Rat r; return 0
   | "http-uist" :: r => Drv.Http.mainUist r; return 0
   | "http-jura" :: r => Drv.Http.mainJura r; return 0
   | _ => IO.eprintln "usage: driver <uist|jura|broker|perf|server|sched|strat|cb|http>"; return 2
